@@ -246,8 +246,8 @@ class CoherentFeedForwardLoop:
         # Update circuit breaker
         if result.success and not result.blocked:
             self._record_success()
-        elif result.blocked and result.success:
-            # Blocks are intentional, not failures
+        elif result.blocked and z_out.action_type != "FAILURE":
+            # Blocks are intentional, not failures; an executor FAILURE is one
             pass
         else:
             self._record_failure()
